@@ -52,7 +52,7 @@ func (g *Gen) ClosureProgram() *Chunk {
 
 	nscen := 2 + g.R.Intn(5)
 	for s := 0; s < nscen; s++ {
-		kind := g.R.Intn(14)
+		kind := g.R.Intn(15)
 		g.cover("exit:%d", kind)
 		v := g.fresh("x")
 		getter := func(name string) Expr { return Fn(nil, false, Blk(Return(N(name)))) }
@@ -68,6 +68,20 @@ func (g *Gen) ClosureProgram() *Chunk {
 				g.cover("exit:break")
 			}
 			b.Stmts = append(b.Stmts, &SNumFor{Var: iv, Start: Num(1), Limit: Num(float64(2 + g.R.Intn(3))), Body: body})
+		case 14: // a loop-body local captured by a closure built inside a nested block of the body, observed in later iterations
+			iv := g.fresh("i")
+			var nested Stmt
+			if g.R.Intn(2) == 0 {
+				nested = &SIf{Conds: []Expr{&ETrue{}}, Blocks: []*Block{Blk(push(getter(v)), push(bump(v)))}}
+			} else {
+				nested = &SDo{Body: Blk(Local1(g.fresh("y"), Num(1)), push(getter(v)))}
+			}
+			b.Stmts = append(b.Stmts, &SNumFor{Var: iv, Start: Num(1), Limit: Num(3), Body: Blk(
+				Local1(v, Bin("*", N(iv), Num(10))),
+				nested,
+				CallSN("emit", Str("later-iteration"), N(iv), Call(Idx(N(fs), Num(3)))),
+			)})
+			g.cover("exit:capture-in-nested-block-of-loop-body")
 		case 12: // captures in descending declaration order inside a fresh coroutine (no lower open upvalue on that thread)
 			a, bb := g.fresh("a"), g.fresh("b")
 			body := Blk(
